@@ -413,6 +413,9 @@ type c06Replay struct {
 func TestC06(t *testing.T) {
 	rep := newReport()
 	defer rep.Write(t)
+	if replayT(t, rep, c06TScenarios()) {
+		return
+	}
 	var rp c06Replay
 	if loadReplay(&rp) {
 		var sig, msg string
@@ -577,6 +580,8 @@ func TestC06(t *testing.T) {
 			rec(nil, 0)
 		}
 	}
+	// ---- Engine T: the timer callback racing a refutation
+	runTSet(t, rep, c06TScenarios(), 3, 15000)
 	rep.Extra["node_cases"] = nodeCases
 	rep.Evaluations = timerCases + nodeCases
 	rep.States = len(rep.Outcomes)
